@@ -176,6 +176,10 @@ func Close[C ~chan V | ~chan<- V, V any](ch C) {
 	}
 	closedChans = append(closedChans, id)
 	closedKeep = append(closedKeep, chanPtr(ch))
+	// close happens-before a receive that observes the closed channel: receives on a closed UNBUFFERED
+	// channel are answered by the model without touching the real channel, so the edge is made explicit
+	// (on the same address the model's receive acquires)
+	raceReleaseAddr(chanPtr(ch))
 	close(ch)
 }
 
@@ -284,6 +288,9 @@ func (s *Sched) chanReady(t *Thread) bool {
 //go:norace
 func runChanOp(op *chanOp) int {
 	s := cur
+	if s.aborting {
+		panic(abortSentinel) // see PointOp
+	}
 	t := s.cur
 	kind := "chan.select"
 	if len(op.cases) == 1 && !op.hasDefault {
